@@ -51,7 +51,7 @@ class Ctx:
         return out
 
 
-def base_inputs(ctx, soup_n, trunc_n=0, lf_n=0, mb_n=0, case_n=0, corpus_trunc=0, gen_n=0):
+def base_inputs(ctx, soup_n, trunc_n=0, lf_n=0, mb_n=0, case_n=0, corpus_trunc=0, gen_n=0, cover_n=0):
     """The shared input sources of DESIGN.md section 5 (4: corpus, 5: random driver, 3: derived)."""
     rng = ctx.rng
     corp = [s for _, s in gen.corpus()]
@@ -60,6 +60,9 @@ def base_inputs(ctx, soup_n, trunc_n=0, lf_n=0, mb_n=0, case_n=0, corpus_trunc=0
     sp = gen.soup(rng, soup_n)
     ctx.add_cases("soup", sp)
     pool = corp + sp
+    if cover_n:
+        cv = cover_inputs(ctx, None if cover_n < 0 else cover_n)
+        ctx.add_cases("cover", cv)
     if gen_n:
         # programs of the construct grammar, half of them with one deleted delimiter (errors in every nesting context)
         gp = []
@@ -234,17 +237,17 @@ def pick_samples(ctx, n=6):
 
 GENERIC = {
     # prop: (quick sizes, thorough sizes, events)
-    "C01": dict(q=dict(soup_n=5000, trunc_n=800, mb_n=300, gen_n=4000), t=dict(soup_n=60000, trunc_n=6000, mb_n=3000, corpus_trunc=400), events=True),
-    "C02": dict(q=dict(soup_n=4000, trunc_n=300, mb_n=800), t=dict(soup_n=50000, trunc_n=4000, mb_n=8000), events=True),
-    "C03": dict(q=dict(soup_n=3000, mb_n=2500, trunc_n=200), t=dict(soup_n=40000, mb_n=30000, trunc_n=2000), events=True),
-    "C04": dict(q=dict(soup_n=3000, lf_n=1200, mb_n=300), t=dict(soup_n=40000, lf_n=15000, mb_n=3000), events=True),
-    "C05": dict(q=dict(soup_n=3000, lf_n=1200, mb_n=300), t=dict(soup_n=40000, lf_n=15000, mb_n=3000), events=False),
-    "C06": dict(q=dict(soup_n=5000, trunc_n=400, mb_n=500, case_n=300), t=dict(soup_n=60000, trunc_n=5000, mb_n=5000, case_n=3000), events=False),
-    "C07": dict(q=dict(soup_n=3000, trunc_n=300, mb_n=300, extra=dict(string_family=5000)), t=dict(soup_n=30000, trunc_n=3000, mb_n=3000, extra=dict(string_family=80000)), events="all"),
+    "C01": dict(q=dict(cover_n=1200, soup_n=5000, trunc_n=800, mb_n=300, gen_n=4000), t=dict(cover_n=-1, soup_n=60000, trunc_n=6000, mb_n=3000, corpus_trunc=400), events=True),
+    "C02": dict(q=dict(cover_n=1200, soup_n=4000, trunc_n=300, mb_n=800), t=dict(cover_n=-1, soup_n=50000, trunc_n=4000, mb_n=8000), events=True),
+    "C03": dict(q=dict(cover_n=1200, soup_n=3000, mb_n=2500, trunc_n=200), t=dict(cover_n=-1, soup_n=40000, mb_n=30000, trunc_n=2000), events=True),
+    "C04": dict(q=dict(cover_n=1200, soup_n=3000, lf_n=1200, mb_n=300), t=dict(cover_n=-1, soup_n=40000, lf_n=15000, mb_n=3000), events=True),
+    "C05": dict(q=dict(cover_n=1200, soup_n=3000, lf_n=1200, mb_n=300), t=dict(cover_n=-1, soup_n=40000, lf_n=15000, mb_n=3000), events=False),
+    "C06": dict(q=dict(cover_n=1200, soup_n=5000, trunc_n=400, mb_n=500, case_n=300), t=dict(cover_n=-1, soup_n=60000, trunc_n=5000, mb_n=5000, case_n=3000), events=False),
+    "C07": dict(q=dict(cover_n=1200, soup_n=3000, trunc_n=300, mb_n=300, extra=dict(string_family=5000)), t=dict(cover_n=-1, soup_n=30000, trunc_n=3000, mb_n=3000, extra=dict(string_family=80000)), events="all"),
     "C08": dict(q=dict(soup_n=2000, extra=dict(num_family=6000)), t=dict(soup_n=20000, extra=dict(num_family=150000)), events=False),
     "C11": dict(q=dict(soup_n=2000, extra=dict(oc_family=12000)), t=dict(soup_n=20000, extra=dict(oc_family=150000)), events=False),
-    "C09": dict(q=dict(soup_n=4000, trunc_n=800, gen_n=6000), t=dict(soup_n=60000, trunc_n=8000, corpus_trunc=400, gen_n=80000), events=True),
-    "C10": dict(q=dict(soup_n=4000, trunc_n=1000, gen_n=4000), t=dict(soup_n=60000, trunc_n=8000, corpus_trunc=400), events=False),
+    "C09": dict(q=dict(cover_n=1200, soup_n=4000, trunc_n=800, gen_n=6000), t=dict(cover_n=-1, soup_n=60000, trunc_n=8000, corpus_trunc=400, gen_n=80000), events=True),
+    "C10": dict(q=dict(cover_n=1200, soup_n=4000, trunc_n=1000, gen_n=4000), t=dict(cover_n=-1, soup_n=60000, trunc_n=8000, corpus_trunc=400), events=False),
 }
 
 RULES = {
@@ -269,6 +272,8 @@ def run_generic(ctx):
             else:
                 ctx.add_cases(fam, getattr(gen, fam)(ctx.rng, n))
     pick_samples(ctx)
+    if ctx.prop in ("C01", "C02", "C04", "C10"):
+        design_mc(ctx)
     cases = list(ctx.cases.values())
     for variant in ("dbg", "rel"):
         ev = cfg["events"] == "all" or (cfg["events"] and (variant == "dbg" or not ctx.quick()))
@@ -655,6 +660,101 @@ def run_c15(ctx):
                   "fragment pairs, soup, corpus; not starting with U+FEFF); TLC evaluates C15_* of spec/Rel.tla on "
                   "(lex(A+B), lex(A), lex(B)) and re-checks closedness itself (ClosedPrefix)",
                   REL_ASSUME)
+
+
+# ----------------------------------------------------------------------------- design MC and transition cover
+
+CLASS_CHAR = {1: "\u00a0", 2: "\u00e9", 3: "\u0301", 4: "\U0001F525", 5: "\u00ac", 6: "\u00a6", 7: "\u2218"}
+FRAGSETS = ["open", "macrostat", "call", "eval", "str"]
+COVER_DIR = os.path.join(common.WORK, "cover")
+
+MC_CFG = """SPECIFICATION Spec
+VIEW View
+CONSTRAINT Bounds
+INVARIANT %(invs)s
+%(props)s
+CONSTANTS
+  FragSet = "%(fs)s"
+  MaxFrags = 1000
+  MaxStack = %(stack)d
+  MaxWindow = %(window)d
+  MaxSpec = 8
+  MaxToksSinceCk = 4
+  Emit1 = %(emit)s
+  MacroSepOn = TRUE
+CHECK_DEADLOCK FALSE
+"""
+DESIGN_INVS = "NoFault NoInternalError CkptDiscipline CkptBelowStack TokensOrdered LinesMatch PendNonEmpty DoneShape"
+
+
+def mc_run(workdir, name, fs, stack, window, emit, invs=DESIGN_INVS, progress=True, timeout=1800, workers=16):
+    """One TLC run of spec/MC_SasLexer.tla.  Returns (stats, list of cover inputs)."""
+    import re
+    cfg = MC_CFG % dict(invs=invs + (" CoverAll" if emit else ""), props="PROPERTY Progress" if progress else "",
+                        fs=fs, stack=stack, window=window, emit="TRUE" if emit else "FALSE")
+    rc, out, wall = common.tlc("MC_SasLexer", cfg, workdir, name, workers=workers, timeout=timeout, heap="16g")
+    if "Model checking completed. No error has been found." not in out:
+        m = re.search(r"(Invariant \w+ is violated|Temporal properties were violated|Error: .*)", out)
+        raise ToolError("design model check %s failed: %s\n%s" % (name, m.group(1) if m else "?", out[-1500:]))
+    st = common.parse_tlc_stats(out)
+    inputs = []
+    if emit:
+        for line in out.splitlines():
+            m = re.match(r'<<"REPLAY", (".*")>>$', line.strip())
+            if m:
+                j = json.loads(json.loads(m.group(1)))
+                inputs.append("".join(CLASS_CHAR.get(k, c) if k else c for c, k in zip(j["cs"], j["cc"])))
+    return {"fragset": fs, "max_stack": stack, "window_fragments": window, "states": st["states"],
+            "distinct": st["distinct"], "wall_s": round(wall, 1)}, inputs
+
+
+def build_cover(stack=8, window=2, log_fn=log):
+    """Generates the transition cover of every fragment set (used by setup.sh and, if missing, by the checks)."""
+    os.makedirs(COVER_DIR, exist_ok=True)
+    total = 0
+    for fs in FRAGSETS:
+        st, inputs = mc_run(COVER_DIR, "cover-" + fs, fs, stack, window, True, invs="NoFault", progress=False)
+        with open(os.path.join(COVER_DIR, fs + ".ndjson"), "w", encoding="utf-8") as f:
+            for s_ in inputs:
+                f.write(json.dumps(s_, ensure_ascii=False) + "\n")
+        with open(os.path.join(COVER_DIR, fs + ".stats.json"), "w") as f:
+            json.dump(st, f)
+        total += len(inputs)
+        log_fn("[cover] %s: %d distinct states, %d inputs, %.0fs" % (fs, st["distinct"], len(inputs), st["wall_s"]))
+    return total
+
+
+def cover_inputs(ctx, n_per_set=None):
+    """Inputs of the transition cover (all, or a seeded sample per fragment set)."""
+    if not all(os.path.exists(os.path.join(COVER_DIR, fs + ".ndjson")) for fs in FRAGSETS):
+        log("[cover] not found, generating a smaller one")
+        build_cover(stack=7)
+    out = []
+    sizes = {}
+    for fs in FRAGSETS:
+        with open(os.path.join(COVER_DIR, fs + ".ndjson"), encoding="utf-8") as f:
+            items = [json.loads(l) for l in f]
+        sizes[fs] = len(items)
+        if n_per_set is not None and len(items) > n_per_set:
+            items = ctx.rng.sample(items, n_per_set)
+        out.extend(items)
+    ctx.extra["transition_cover_sizes"] = sizes
+    return out
+
+
+def design_mc(ctx, quick_sets=(("open", 8, 3), ("call", 8, 2)), thorough_sets=None):
+    """Model checks the design invariants on the operational model (regime R2) and records the counts."""
+    sets = quick_sets if ctx.quick() else (thorough_sets or [(fs, 10, 2) for fs in FRAGSETS] + [("open", 12, 3)])
+    runs = []
+    for fs, stack, window in sets:
+        st, _ = mc_run(ctx.dir, "mc-%s" % fs, fs, stack, window, False)
+        runs.append(st)
+        ctx.states += st["distinct"]
+        ctx.transitions += st["states"]
+        log("[mc] %s stack<=%d window<=%d: %d distinct states, %d generated, %.0fs, invariants hold" % (
+            fs, stack, window, st["distinct"], st["states"], st["wall_s"]))
+    ctx.extra["design_model_checking"] = {"module": "spec/MC_SasLexer.tla", "invariants": DESIGN_INVS.split() + ["Progress"],
+                                          "runs": runs}
 
 
 # ----------------------------------------------------------------------------- Gen (C12-C14)
